@@ -20,6 +20,9 @@ From MV Require Import Opt.OptMarks.
 From MV Require Import Opt.OptCommentsDef.
 From MV Require Import Opt.OptComments.
 From MV Require Import Opt.OptNul.
+From MV Require Import Opt.OptSrcTop.
+From MV Require Import Opt.OptSrcCompose.
+From MV Require Import Opt.OptSrcAll.
 Import ListNotations.
 Open Scope N_scope.
 
@@ -142,6 +145,39 @@ Theorem C07_nul_truncates : forall a b : str,
   options_to_items (a ++ 0 :: b) = options_to_items a.
 Proof. exact nul_truncates. Qed.
 Print Assumptions C07_nul_truncates.
+
+(* ---- Round 3: the theorems for the code as it is written now ---- *)
+
+(* [options_to_items_src] is the tokenizer whose thirteen scanner functions (_scan_line_break,
+   _scan_to_next_token, _scan_plain_spaces, _scan_plain_scalar, _scan_flow_scalar and its three
+   helpers, _scan_block_scalar and its four helpers) are the Gallina terms that gen/c07_src.py
+   translates statement by statement from myst_parser/parsers/options.py on every run
+   (Gen/OptSrc.v), put under the hand-written model of the _tokenize / _to_tokens loops
+   (Opt/OptSrcTop.v).  Opt/OptSrcProofs.v and Opt/OptSrcCompose.v prove each translated function
+   equal to its hand-written counterpart, hence: *)
+Theorem C07_src_refines : forall text : str, options_to_items_src text = options_to_items text.
+Proof. exact options_to_items_src_eq. Qed.
+Print Assumptions C07_src_refines.
+
+Theorem C07_terminates_src : forall text : str, options_to_items_src text <> Raise OutOfFuel.
+Proof. exact terminates_src. Qed.
+Print Assumptions C07_terminates_src.
+
+Theorem C07_only_tokenize_error_src : forall text : str,
+  (exists pairs, options_to_items_src text = Ok pairs) \/
+  (exists p, options_to_items_src text = Raise (TokenizeError p) /\ p <= N.of_nat (length text)).
+Proof. exact only_tokenize_error_src. Qed.
+Print Assumptions C07_only_tokenize_error_src.
+
+Theorem C07_yaml_agree_src : forall b : block,
+  wf_block b = true -> options_to_items_src (print_block b) = Ok (meaning_block b).
+Proof. exact yaml_agree_src. Qed.
+Print Assumptions C07_yaml_agree_src.
+
+Theorem C07_nul_truncates_src : forall a b : str,
+  options_to_items_src (a ++ 0 :: b) = options_to_items_src a.
+Proof. exact nul_truncates_src. Qed.
+Print Assumptions C07_nul_truncates_src.
 
 (* ---- non-vacuity ---- *)
 
